@@ -1125,6 +1125,30 @@ func (vc *VC) frameFacts(st *State, k string, oldH, nh Term, locs []modLoc, allo
 	}
 	vc.assume(st, Forall([]Term{b, j}, [][]Term{{Select(Select(nh, b), j)}},
 		Implies(And(Lt(b, alloc), Not(Or(ex...))), Eq(Select(Select(nh, b), j), Select(Select(oldH, b), j)))))
+	// whole arrays that the callee cannot touch are equal as arrays (what the pointwise fact gives by
+	// extensionality): stated for every base, and instantiated for the slice parameters so that the
+	// quantifier-free relaxations keep ghost functions over cells(p) stable across the call
+	var bases []Term
+	for _, m := range locs {
+		if !m.field && m.heap == k {
+			bases = append(bases, Eq(b, m.base))
+		}
+	}
+	vc.assume(st, Forall([]Term{b}, [][]Term{{Select(nh, b)}},
+		Implies(And(Lt(b, alloc), Not(Or(bases...))), Eq(Select(nh, b), Select(oldH, b)))))
+	for _, ps := range vc.paramSlices {
+		if ps.key != k {
+			continue
+		}
+		pb := SBase(ps.t)
+		var hit []Term
+		for _, m := range locs {
+			if !m.field && m.heap == k {
+				hit = append(hit, Eq(pb, m.base))
+			}
+		}
+		vc.assume(st, Implies(Not(Or(hit...)), Eq(Select(nh, pb), Select(oldH, pb))))
+	}
 }
 
 func (vc *VC) execFor(fr *frame, st *State, x *ast.ForStmt, label string) *State {
